@@ -419,7 +419,7 @@ func c15GC(c *run.C) {
 func init() {
 	gcEnv := []string{"GOGC=1", "GODEBUG=clobberfree=1"}
 	suites := []*run.Suite{
-		{Name: "alias", N: tierN(90000, 3000000), Case: c15Alias, Require: []string{"alias_cases_json", "alias_cases_ubjson", "alias_cases_cborl", "alias_entry_Write", "alias_entry_ParseReader", "alias_entry_Decoder", "alias_entry_ParseString", "alias_with_key_cache", "strings_checked"}},
+		{Name: "alias", N: tierN(90000, 3000000), Case: c15Alias, Require: hookedReq([]string{"alias_cases_json", "alias_cases_ubjson", "alias_cases_cborl", "alias_entry_ParseReader", "alias_entry_Decoder", "alias_entry_ParseString", "alias_with_key_cache", "strings_checked"}, "alias_entry_Write")},
 		{Name: "gc", Env: gcEnv, N: tierN(600, 60000), Case: c15GC, Require: []string{"gc_pipelines_direct", "gc_pipelines_json", "gc_pipelines_ubjson", "gc_pipelines_cborl"}},
 		// sanitizer builds over the real pipelines (checkptr aborts on any invalid unsafe.Pointer conversion)
 		{Name: "alias-race", Build: "race", N: tierN(3000, 300000), Case: c15Alias},
